@@ -48,6 +48,7 @@ structure Glob (σ : Ring) : Prop where
   tagwf : ∀ j t, σ.tag j = some t → t < σ.head ∧ t % σ.N = j
   curlt : σ.cur < σ.nextGrp
   regest : ∀ s, reg σ s → σ.est s = true
+  estsub : ∀ s, σ.est s = true → σ.sused s = true
 
 /-- facts a reader that examines position `p` of stream `s` has established -/
 def sawTag (σ : Ring) (s p : Nat) : Prop :=
@@ -85,7 +86,8 @@ def Loc (σ : Ring) (x : Th) : Prop :=
   | .rc p _ c | .r8 p c | .r9 p _ c =>
       sawTag σ s p ∧ (x.single = true → σ.pos s = p) ∧ (σ.pos s ≤ p → c = σ.log[p]?)
   | .fg _ _ => x.single = false
-  | .a1 | .a2 _ => σ.sused x.ns = true ∧ σ.est x.ns = false
+  | .a1 => σ.sused x.ns = true ∧ σ.est x.ns = false
+  | .a2 c => σ.sused x.ns = true ∧ σ.est x.ns = false ∧ c ≤ σ.cur
   | .a3 c _ ng =>
       σ.sused x.ns = true ∧ σ.est x.ns = false ∧ c < ng ∧ ng < σ.nextGrp ∧ σ.groups ng = σ.groups c ++ [x.ns]
   | .rr2 c ng => c < ng ∧ ng < σ.nextGrp ∧ σ.groups ng = (σ.groups c).filter (· != s)
@@ -112,6 +114,7 @@ structure ModeOK (σ : St) : Prop where
   recv : ∀ t u, t ≠ u → (σ.th t).pc.recvActive = true → (σ.th u).singleRecv = true →
     (σ.th t).s = (σ.th u).s → False
   regd : ∀ t, (σ.th t).pc.recvActive = true → reg σ.ring (σ.th t).s
+  regadd : ∀ t, (σ.th t).pc.addPC = true → reg σ.ring (σ.th t).s
 
 theorem mod_window_inj {N a b : Nat} (h : a % N = b % N) (h1 : a < b + N) (h2 : b < a + N) : a = b := by
   rcases Nat.lt_or_ge a b with hab | hab
